@@ -91,6 +91,30 @@ def def_shape_cases(rng, V, n_cases):
     return out
 
 
+def def_unit_value_cases(rng, V, n_cases):
+    """Def / Def-expand of a definition whose placeholder sits in a UNIT-CLASS tag (LenDef: Distance/#): values that are
+    numeric / non-numeric, written with a valid unit / a bad unit / no unit.  A wrongly valued Def must carry the
+    rule's code (DEF_INVALID / DEF_EXPAND_INVALID) at ERROR severity, whatever other findings accompany it."""
+    sym, _ = unit_forms(V, "physicalLengthUnits")
+    good_units = sorted(u for u in sym if u in ("m", "km", "cm", "mm")) or ["m"]
+    out = []
+    for _ in range(n_cases):
+        num = rng.choice(["3", "1.5", "25"])
+        word = rng.choice(["abc", "x3", "three", "3q", "1.5.5"])
+        unit = rng.choice(good_units)
+        badu = rng.choice(["xyz", "qqq", "zorkmids"])
+        kind, val, codes = rng.choice([
+            ("valid_unit", num + " " + unit, None), ("valid_nounit", num, None),
+            ("word_nounit", word, ["VALUE_INVALID"]), ("word_unit", word + " " + unit, ["VALUE_INVALID"]),
+            ("num_badunit", num + " " + badu, ["UNITS_INVALID"]), ("word_badunit", word + " " + badu, ["VALUE_INVALID"])])
+        if rng.random() < 0.6:
+            item, code = "Def/LenDef/" + val, "DEF_INVALID"
+        else:
+            item, code = ["Def-expand/LenDef/" + val, ["Distance/" + val, "Green"]], "DEF_EXPAND_INVALID"
+        out.append((item, (codes + [code]) if codes else None, "def_unit_value_" + kind))
+    return out
+
+
 # Definition NAMES as an input dimension (schemas with the 8.3 character rules only): ASCII, plain non-ASCII letters,
 # and letters whose lower() differs from their casefold() (sharp s, long s, final sigma, ligatures, Cherokee, ...)
 _SPECIAL = [ch for ch in map(chr, range(0xA0, 0x10000))
